@@ -126,6 +126,16 @@ def _decode_table(f: FuncInfo, helpers=()) -> dict[str, str]:
             if used:
                 for k, v in zip(n.keys, n.values):
                     table[k.value] = _ref_kind(v)
+    # ... and lookup tables kept at module level (`_FIELD_DECODERS = {"ttl": _decode_seconds, ...}`; `dec = _FIELD_DECODERS.get(key)`)
+    for nm in {x.id for x in ast.walk(f.node) if isinstance(x, ast.Name)}:
+        n = f.module.assigns.get(nm)
+        if isinstance(n, ast.Dict) and n.keys and all(isinstance(k, ast.Constant) and isinstance(k.value, str) for k in n.keys) \
+                and all(isinstance(v, (ast.Name, ast.Attribute)) for v in n.values):
+            used = any(isinstance(c, ast.Call) and isinstance(c.func, ast.Attribute) and c.func.attr == "get" and dotted(c.func.value) == nm for c in ast.walk(f.node)) or \
+                any(isinstance(s_, ast.Subscript) and dotted(s_.value) == nm for s_ in ast.walk(f.node))
+            if used:
+                for k, v in zip(n.keys, n.values):
+                    table[k.value] = _ref_kind(v)
     for h in helpers:
         table.update(_decode_table(h))
 
